@@ -89,7 +89,7 @@ Lemma spec_req_hit_sound nf acc m p0 o h : spec_req nf acc (m, p0) o = true -> o
   let p := served_path p0 o in
   exists q pat, req_segs (clean p) = Some q /\ In (m, pat, h) acc /\ pmatch pat q = true.
 Proof.
-  unfold spec_req, spec_req_gen. fold (served_path p0 o). generalize (served_path p0 o). intros p H Hh. rewrite Hh in H. destruct (req_segs (clean p)) as [q|]; [|simpl in H; rewrite andb_false_r in H; discriminate].
+  unfold spec_req, spec_req_gen. cbn [andb]. fold (served_path p0 o). generalize (served_path p0 o). intros p H Hh. rewrite Hh in H. destruct (req_segs (clean p)) as [q|]; [|simpl in H; rewrite andb_false_r in H; discriminate].
   destruct (matches acc m q) as [|r0 l] eqn:E; [discriminate|].
   apply existsb_exists in H as ([[m' pat] id] & Hin & H). rewrite <- E in Hin. apply matches_In in Hin as (Hin & Hm & Hp).
   unfold r_id, r_method, r_pat in *. simpl in *. apply andb_true_iff in H as [H _]. apply andb_true_iff in H as [H _].
@@ -100,7 +100,7 @@ Lemma spec_req_nohandler_sound nf acc m p0 o : spec_req nf acc (m, p0) o = true 
   let p := served_path p0 o in
   forall q pat id, req_segs (clean p) = Some q -> In (m, pat, id) acc -> pmatch pat q = false.
 Proof.
-  unfold spec_req, spec_req_gen. fold (served_path p0 o). generalize (served_path p0 o). intros p H Hh q pat id Eq Hin. rewrite Hh, Eq in H.
+  unfold spec_req, spec_req_gen. cbn [andb]. fold (served_path p0 o). generalize (served_path p0 o). intros p H Hh q pat id Eq Hin. rewrite Hh, Eq in H.
   destruct (matches acc m q) as [|r0 l] eqn:E; [|discriminate].
   destruct (pmatch pat q) eqn:Ep; [|reflexivity]. exfalso.
   assert (Hx : In (m, pat, id) (matches acc m q)) by (apply matches_In; auto).
